@@ -27,6 +27,7 @@ box_int = z3.Function('box_int', I, Obj)
 box_bool = z3.Function('box_bool', B, Obj)
 unbox_int = z3.Function('unbox_int', Obj, I)
 hashable = z3.Function('hashable', Obj, B)
+eqc = z3.Function('eqc', Obj, Obj)              # class of x under ==/hash (dict and set lookups identify equal keys); x is y => same class
 VOCAB = dict(inst=inst, subc=subc, len_=len_, item=item, first=first, mget=mget, mem=mem, vmem=vmem, firstval=firstval,
              firstitem=firstitem, eq=eq, truthy=truthy, typeof=typeof, attr=attr, hasattr_=hasattr_, callres=callres)
 
@@ -97,6 +98,8 @@ class Universe:
                 try: r = bool(v == w)
                 except Exception: continue
                 ax.append(eq(zv, zw) == z3.BoolVal(r))
+                try: ax.append((eqc(zv) == eqc(zw)) == z3.BoolVal(bool(r and hash(v) == hash(w))))
+                except Exception: pass
             if isinstance(v, (tuple, list, str, bytes, frozenset, set, dict)):
                 ax.append(len_(zv) == len(v))
         ax += self.protocol_axioms()
